@@ -10,10 +10,11 @@ import numpy as np
 
 from .poly import Poly, parr, pvars, frac, z3mod, is_scalar
 
-SCALAR_OUT = {'norm1', 'norm2', 'norminf', 'sumsqr', 'quad', 'entropy', 'max', 'pnorm', 'gmean', 'kldiv', 'sumexp', 'sumlog'}
+SCALAR_OUT = {'norm1', 'norm2', 'norminf', 'sumsqr', 'quad', 'entropy', 'max', 'pnorm', 'gmean', 'kldiv', 'sumexp', 'sumlog',
+              'sumpexp', 'sumplog'}
 CURV = {'abs': 1, 'norm1': 1, 'norm2': 1, 'norminf': 1, 'square': 1, 'sumsqr': 1, 'quad': 1, 'exp': 1,
         'log': -1, 'entropy': -1, 'softplus': 1, 'max': 1, 'pnorm': 1, 'power': 1, 'gmean': -1,
-        'pexp': 1, 'plog': -1, 'kldiv': 1, 'sumexp': 1, 'sumlog': -1}
+        'pexp': 1, 'plog': -1, 'kldiv': 1, 'sumexp': 1, 'sumlog': -1, 'sumpexp': 1, 'sumplog': -1}
 
 
 class OAtom:
@@ -287,7 +288,7 @@ def cons_z3(c, env, eps=0):
     return out
 
 
-EXP_KINDS = ('exp', 'log', 'pexp', 'plog', 'softplus', 'entropy', 'sumexp', 'sumlog', 'kldiv')
+EXP_KINDS = ('exp', 'log', 'pexp', 'plog', 'softplus', 'entropy', 'sumexp', 'sumlog', 'kldiv', 'sumpexp', 'sumplog')
 
 
 def _cone(env, a, b, c):
@@ -322,9 +323,23 @@ def exp_le(a, env):
         args = _bcast_phi(a, args)
     one = z3.RealVal(1)
     out = []
-    if kind in ('exp', 'pexp', 'softplus', 'sumexp', 'kldiv') and k <= 0 or kind in ('log', 'plog', 'entropy', 'sumlog') and k >= 0:
+    if kind in ('exp', 'pexp', 'softplus', 'sumexp', 'kldiv', 'sumpexp') and k <= 0 or \
+            kind in ('log', 'plog', 'entropy', 'sumlog', 'sumplog') and k >= 0:
         raise ValueError('non-convex use in the oracle')
     kinv = z3.RealVal(str(1 / abs(k)))
+    if kind in ('sumpexp', 'sumplog'):
+        # sum_i s_i*exp(e_i/s_i) <= r  <=>  exists t: (e_i, t_i, s_i) in K, sum t <= r
+        # sum_i s_i*log(e_i/s_i) >= g  <=>  exists w: (w_i, e_i, s_i) in K, sum w >= g
+        sc = [env.p(p) for p in parr(a.params).reshape(-1)]
+        if len(sc) == 1:
+            sc = sc * len(args)
+        aux = [env.new('w') for _ in args]
+        if kind == 'sumpexp':
+            out += [_cone(env, e, t, s_) for e, t, s_ in zip(args, aux, sc)] + [z3.Sum(aux) <= -offs[0] * kinv]
+        else:
+            out += [_cone(env, w, e, s_) for e, w, s_ in zip(args, aux, sc)] + [z3.Sum(aux) >= offs[0] * kinv]
+        env.exist = getattr(env, 'exist', []) + [(w, kind, e) for w, e in zip(aux, args)]
+        return out
     if kind == 'exp':
         for e, o in zip(args, offs):
             out.append(_cone(env, e, -o * kinv, one))
@@ -495,7 +510,14 @@ def cons_eval(c, assign, tol=1e-7):
             phi = [max(parr(p).reshape(-1)[0].evalf(assign) for p in a.arg)]
         else:
             args = np.array([p.evalf(assign) for p in a.arg.reshape(-1)], dtype=float)
-            if a.kind in ('pexp', 'plog'):
+            if a.kind in ('sumpexp', 'sumplog'):
+                sc = [p.evalf(assign) for p in parr(a.params).reshape(-1)]
+                sc = sc * len(args) if len(sc) == 1 else sc
+                if a.kind == 'sumpexp':
+                    phi = [sum(s_ * _exp(v / s_) if s_ > 0 else (0.0 if v <= 0 else 1e300) for v, s_ in zip(args, sc))]
+                else:
+                    phi = [sum(s_ * math.log(v / s_) if s_ > 0 and v > 0 else -1e300 for v, s_ in zip(args, sc))]
+            elif a.kind in ('pexp', 'plog'):
                 sc = [p.evalf(assign) for p in parr(a.params).reshape(-1)]
                 sc = sc * len(args) if len(sc) == 1 else sc
                 if a.kind == 'pexp':
@@ -539,6 +561,9 @@ def atom_eval(a, args):
     if k == 'quad':
         Q = np.array([[float(frac(v)) for v in row] for row in a.params])
         return [float(args @ Q @ args)]
+    if k in ('pexp', 'plog') and np.ndim(a.params) == 0:
+        sc = float(a.params)
+        return [sc * _exp(v / sc) for v in args] if k == 'pexp' else [sc * math.log(v / sc) if v > 0 else -1e300 for v in args]
     if k == 'exp':
         return [_exp(v) for v in args]
     if k == 'log':
